@@ -109,6 +109,10 @@ def gen_case(rng, tier, kind=None):
             case["chunks"] = random_composition(rng, n, rng.randint(1, 3))
         if rng.random() < 0.15:
             case["refit"] = True  # the same estimator object is trained a second time
+            # ... possibly through a Dask array that carries the same (explicit) name as the
+            # first one although its content differs (a long-lived array over a store that was
+            # refilled, `da.from_array(batch, name="feats")` per batch)
+            case["same_name"] = rng.random() < 0.4
         if d >= 2 and rng.random() < 0.12:
             case["fchunks"] = random_composition(rng, d, rng.randint(2, d))
         K = rng.randint(1, 8) if not rows_tail else rng.randint(1, 2)
@@ -516,7 +520,11 @@ def _dask_X(case, X, reverse=False):
         b = da.from_array(X[cut:] * 0.5, chunks=(chunks[1:], (X.shape[1],)))
         return da.concatenate([a, b], axis=0) * 2.0
     f = case.get("fchunks")
-    return da.from_array(X, chunks=(chunks, tuple(f) if f else (X.shape[1],)))
+    kw = {}
+    if case.get("same_name"):
+        from ..util import case_digest
+        kw["name"] = "verif-feats-" + case_digest({"X": case["X"], "c": case["chunks"]})[:10]
+    return da.from_array(X, chunks=(chunks, tuple(f) if f else (X.shape[1],)), **kw)
 
 
 # ---------------------------------------------------------------------------
@@ -559,6 +567,7 @@ def run_case(case, replay=None):
     rec.probe("feature_chunked", bool(case.get("fchunks")))
     rec.probe("unknown_chunk_sizes", bool(case.get("nan_mask")))
     rec.probe("lazy_expression_input", bool(case.get("lazy_expr")))
+    rec.probe("refit_through_same_named_array", bool(case.get("same_name")))
     rec.probe("mode_" + case["sched"]["mode"])
     rec.probe("fault_free_configuration", bool(case.get("fault_free")))
 
